@@ -368,6 +368,27 @@ fn alias_class(doc: &[u8], name: &str) -> &'static str {
     }
 }
 
+/// `got` and `want` (JSON texts) differ only in the length of runs of `\n` escapes and the input
+/// has a keep-chomped folded scalar (`>+`): the pinned-to-yq "+1" trailing quirk of
+/// `stream_yaml_block_scalar` (tests/yq_cli_tests.rs `test_block_scalar_folded_keep_style_preserved`).
+fn folded_keep_only(doc: &[u8], got: &str, want: &str) -> bool {
+    fn squash(s: &str) -> String {
+        let mut o = String::new();
+        let mut rest = s;
+        while let Some(p) = rest.find("\\n") {
+            o.push_str(&rest[..p]);
+            o.push_str("\\n");
+            rest = &rest[p + 2..];
+            while rest.starts_with("\\n") {
+                rest = &rest[2..];
+            }
+        }
+        o.push_str(rest);
+        o
+    }
+    String::from_utf8_lossy(doc).contains(">+") && got != want && squash(got) == squash(want)
+}
+
 fn is_pure_path(prog: &str) -> bool {
     !prog.is_empty() && prog.chars().all(|c| c.is_alphanumeric() || "._[]\" ".contains(c))
 }
@@ -407,6 +428,7 @@ fn cli_loop(doc: &[u8], prog: &str, indent: usize) -> String {
     if got == want {
         "LOOP-OK".into()
     } else {
+        let tag = if folded_keep_only(doc, &got, &want) { "folded-keep-extra-break" } else { tag };
         format!(
             "LOOP-FAIL {tag} out={} got={} want={}",
             hex_bytes(&y_out[..y_out.len().min(300)]),
@@ -535,7 +557,8 @@ pub fn exec(a: &[&str]) -> String {
             match load_json(out.as_bytes()) {
                 Ok(got) if got == want => "LOOP-OK".into(),
                 Ok(got) => format!(
-                    "LOOP-FAIL out={} got={} want={}",
+                    "LOOP-FAIL {} out={} got={} want={}",
+                    if folded_keep_only(&doc, &got, &want) { "folded-keep-extra-break" } else { "value" },
                     hex_bytes(out.as_bytes()),
                     hex_bytes(got.as_bytes()),
                     hex_bytes(want.as_bytes())
@@ -1041,7 +1064,7 @@ fn gen_src_scalar(r: &mut Rng) -> String {
 pub fn gen(tier: Tier, r: &mut Rng, emit: &mut dyn FnMut(String)) {
     let quick = tier == Tier::Quick;
     // ---- leg 1: decision functions on adversarial strings
-    let n_str = if quick { 2500 } else { 60_000 };
+    let n_str = if quick { 2000 } else { 60_000 };
     let mut strings: Vec<String> = Vec::new();
     // deterministic boundary set first
     for i in INDICATORS {
@@ -1098,7 +1121,7 @@ pub fn gen(tier: Tier, r: &mut Rng, emit: &mut dyn FnMut(String)) {
             emit(format!("C15 ssv {} {st} {}", hx(&doc), hx(&dec)));
         }
     }
-    let n_docs = if quick { 1500 } else { 40_000 };
+    let n_docs = if quick { 1200 } else { 40_000 };
     let mut docs: Vec<String> = Vec::new();
     let mut tries = 0;
     while docs.len() < n_docs && tries < n_docs * 4 {
@@ -1112,7 +1135,7 @@ pub fn gen(tier: Tier, r: &mut Rng, emit: &mut dyn FnMut(String)) {
         emit(format!("C15 sloop {} {}", hx(d), r.below(9)));
     }
     // ---- leg 2: CLI end to end (batched over worker threads, results cached for `exec`)
-    let n_cli = if quick { 600 } else { 15_000 };
+    let n_cli = if quick { 450 } else { 15_000 };
     let mut reqs: Vec<String> = Vec::new();
     for i in 0..n_cli {
         let d = &docs[r.usize_below(docs.len().max(1)) % docs.len().max(1)];
